@@ -68,6 +68,8 @@ type tcase struct {
 	Nonce    specNonce    `json:"nonce"`
 	Nonces   []string     `json:"nonces"`
 	CspLines [][][]cspDir `json:"csplines"`
+	Doc      specDoc      `json:"doc"`
+	Fates    []string     `json:"fates"`
 	Enc      string       `json:"enc"`
 	Cl       string       `json:"cl"`
 	Bytes    string       `json:"bytes"`
@@ -165,37 +167,114 @@ func closedFiller(rng *rand.Rand, n int, nonASCII bool) string {
 	}
 }
 
-// document builds the page for a body shape with (about, then exactly) size bytes.
-func document(shape string, size int, rng *rand.Rand) []byte {
+// Documents as the spec describes them (Doc(shape) in Proxy.tla): a skeleton, the kind of running text, and
+// items -- elements whose content is not ordinary markup -- in head or body.
+type docItem struct {
+	In      string `json:"in"`      // "head" | "body"
+	El      string `json:"el"`      // script style xmp iframe noembed title textarea noscript
+	Content string `json:"content"` // markuplike entity element textentity metaonly bodytag src
+}
+type specDoc struct {
+	Skeleton string    `json:"skeleton"` // empty fragment page frameset
+	Text     string    `json:"text"`     // ascii nonascii
+	Items    []docItem `json:"items"`
+}
+
+// renderItem writes one item concretely. k varies attributes between items of the same kind.
+func renderItem(it docItem, k int, nonASCII bool) string {
+	var content string
+	switch it.Content {
+	case "markuplike":
+		content = "if (a < b && c > d) { x = \"</p><b>not markup</b>\"; } /* &amp; &lt; &copy stay as typed */"
+		if it.El == "style" {
+			content = "p > a::before { content: \"<b>&amp;</b>\"; } /* a < b */"
+		}
+	case "entity":
+		content = "Fish &amp; Chips &lt;3 &copy; 2024 &#x2014; &quot;q&quot;"
+		if it.El == "script" {
+			content = "window.label = \"Fish &amp; Chips &lt;3 &copy; 2024\";"
+		}
+	case "element":
+		content = "<img height=\"1\" width=\"1\" src=\"https://stats.example.com/pixel.gif?a=1&amp;b=2\"/>"
+	case "textentity":
+		content = "This app needs JavaScript &amp; cookies. <a href=\"/help?a=1&amp;b=2\">Help</a>"
+	case "metaonly":
+		content = "<link rel=stylesheet href=/ns.css><meta name=x content='y'>"
+	case "bodytag":
+		content = "const tpl = \"<body class='inner'><p>not markup</p></body>\"; if (1 < 2) { console.log(tpl) }"
+	case "src":
+	default:
+		vhlib.Fatal("unknown item content %q", it.Content)
+	}
+	if nonASCII && it.Content != "src" && it.Content != "metaonly" {
+		content += " Größe — 日本語"
+		if it.El == "script" || it.El == "style" {
+			content = strings.Replace(content, " Größe — 日本語", " /* Größe — 日本語 */", 1)
+		}
+	}
+	attrs := ""
+	switch {
+	case it.El == "script" && it.Content == "src":
+		attrs = []string{" src=\"/head.js\" defer", " type=\"module\" src=\"/m.js\" nonce=\"pagenonce\"", " src=\"/app.js\""}[k%3]
+	case it.El == "script" && it.Content == "bodytag" && k%2 == 1:
+		attrs = " type=\"text/template\""
+	case it.El == "textarea":
+		attrs = " name=\"t\" rows=\"2\""
+	case it.El == "iframe":
+		attrs = " src=\"/frame\""
+	}
+	return "<" + it.El + attrs + ">" + content + "</" + it.El + ">\n"
+}
+
+// document builds the page for a spec document with (about, then exactly) size bytes.
+func document(d specDoc, size int, rng *rand.Rand) []byte {
 	var pre, post string
-	nonASCII := false
-	switch shape {
+	nonASCII := d.Text == "nonascii"
+	var headItems, bodyBefore, bodyAfter strings.Builder
+	hasTitle := false
+	nb := 0
+	for k, it := range d.Items {
+		r := renderItem(it, k, nonASCII)
+		switch {
+		case it.In == "head":
+			headItems.WriteString(r)
+			if it.El == "title" {
+				hasTitle = true
+			}
+		case nb%2 == 0:
+			bodyBefore.WriteString(r)
+			nb++
+		default:
+			bodyAfter.WriteString(r)
+			nb++
+		}
+	}
+	switch d.Skeleton {
 	case "empty":
 		return nil
 	case "fragment":
 		pre, post = "<h1>fragment</h1>\n", "<footer>end</footer>\n"
-	case "full":
-		pre = "<!DOCTYPE html>\n<html lang=\"en\">\n<head>\n<meta charset=\"utf-8\">\n<title>full</title>\n<link rel=\"stylesheet\" href=\"/s.css\">\n</head>\n<body class=\"page\" data-x=\"1\">\n<main>\n"
-		post = "</main>\n</body>\n</html>\n"
-	case "scriptbody":
-		pre = "<!DOCTYPE html>\n<html>\n<head>\n<title>js</title>\n<script>const tpl = \"<body><p>not markup</p></body>\"; if (1 < 2) { console.log(tpl) }</script>\n</head>\n<body>\n<script>document.title = \"<body>\" + '</body>';</script>\n<div id=\"app\">\n"
-		post = "</div>\n<script type=\"text/template\"><body class=\"inner\"><p>x</p></body></script>\n</body>\n</html>\n"
-	case "nonascii":
-		nonASCII = true
-		pre = "<!DOCTYPE html>\n<html lang=\"ja\">\n<head>\n<meta charset=\"utf-8\">\n<title>日本語のページ — ünïcödé</title>\n</head>\n<body data-名前=\"値\" title=\"Ærøskøbing\">\n<h1>Größe ≥ 10 µm · “quotes” · 🎉</h1>\n"
-		post = "<p>終わり  x</p>\n</body>\n</html>\n"
-	case "scripts":
-		pre = "<!DOCTYPE html>\n<html>\n<head>\n<title>scripts</title>\n<script src=\"/head.js\" defer></script>\n</head>\n<body>\n<script>window.a = 1;</script>\n<section>\n"
-		post = "</section>\n<script src=\"/app.js\"></script>\n<script type=\"module\" src=\"/m.js\" nonce=\"pagenonce\"></script>\n<script>init();</script>\n</body>\n</html>\n"
+	case "page":
+		title, lang, battrs, h1 := "page", "en", " class=\"page\" data-x=\"1\"", ""
+		if nonASCII {
+			title, lang, battrs = "日本語のページ — ünïcödé Café", "ja", " data-名前=\"値\" title=\"Ærøskøbing\""
+			h1 = "<h1>Größe ≥ 10 µm · “quotes” · 🎉 Crème brûlée</h1>\n"
+		}
+		pre = "<!DOCTYPE html>\n<html lang=\"" + lang + "\">\n<head>\n<meta charset=\"utf-8\">\n" + headItems.String()
+		if !hasTitle {
+			pre += "<title>" + title + "</title>\n"
+		}
+		pre += "<link rel=\"stylesheet\" href=\"/s.css\">\n</head>\n<body" + battrs + ">\n" + h1 + bodyBefore.String() + "<main>\n"
+		post = "</main>\n" + bodyAfter.String() + "</body>\n</html>\n"
 	case "frameset":
 		pre = "<!DOCTYPE html>\n<html>\n<head>\n<title>frames</title>\n<!-- "
 		post = " -->\n</head>\n<frameset cols=\"50%,50%\">\n<frame src=\"/a\">\n<frame src=\"/b\">\n</frameset>\n</html>\n"
 	default:
-		vhlib.Fatal("unknown body shape %q", shape)
+		vhlib.Fatal("unknown skeleton %q", d.Skeleton)
 	}
 	room := size - len(pre) - len(post)
 	var mid string
-	if shape == "frameset" {
+	if d.Skeleton == "frameset" {
 		// padding lives in a comment
 		if room > 0 {
 			mid = strings.Repeat("pad ", room/4+1)[:room]
@@ -458,7 +537,7 @@ func decideBranch(path []string) string {
 
 func (e *env) exchange(tc tcase, size int, rng *rand.Rand) outcome {
 	c := tc.Cfg
-	plain := document(c.Body, size, rng)
+	plain := document(tc.Doc, size, rng)
 	wire, tok := encode(c.Enc, plain, rng)
 	ct, noCT := contentType(c.Ct, rng)
 	csp := cspFor(tc.CspLines, rng)
@@ -606,7 +685,7 @@ func (e *env) exchange(tc tcase, size int, rng *rand.Rand) outcome {
 		}
 		if !bytes.Equal(decoded, plain) {
 			if d := sameTree(orig, got, nil, ""); d != "" {
-				return bad("HtmlGetsExactlyOneScript", "document without body was altered: "+d)
+				return bad("DocumentOnlyAppendedTo", "document without body was altered: "+d)
 			}
 		}
 		if tc.Inserted != 0 {
@@ -674,7 +753,7 @@ func (e *env) exchange(tc tcase, size int, rng *rand.Rand) outcome {
 		}
 	}
 	if d := sameTree(orig, got, script, ""); d != "" {
-		return bad("HtmlGetsExactlyOneScript", "the received document differs from the original beyond the appended script: "+d)
+		return bad("DocumentOnlyAppendedTo", "the received document differs from the original beyond the appended script: "+d)
 	}
 	if tc.Inserted != 1 {
 		o.drift = "spec predicts no insertion, the real proxy inserted the script"
@@ -798,7 +877,7 @@ func cases(args []string) {
 	if err != nil {
 		vhlib.Fatal("%v", err)
 	}
-	selfTestDocuments(seed)
+	selfTestDocuments(seed, tcs)
 	e, done := newEnv()
 	defer done()
 
@@ -922,12 +1001,16 @@ func cases(args []string) {
 
 // selfTestDocuments: the generated documents must be stable under parse/render/parse, otherwise a DOM
 // difference would be the fault of the test data, not of the proxy (machinery error, never a violation).
-func selfTestDocuments(seed int64) {
+func selfTestDocuments(seed int64, tcs []tcase) {
 	rng := rand.New(rand.NewSource(seed))
-	for _, shape := range []string{"empty", "fragment", "full", "scriptbody", "nonascii", "scripts", "frameset"} {
-		for _, size := range []int{0, 500, 4097, 40000} {
-			doc := document(shape, size, rng)
-			if shape != "empty" && size >= 500 && len(doc) != size {
+	docs := map[string]specDoc{}
+	for _, tc := range tcs {
+		docs[tc.Cfg.Body] = tc.Doc
+	}
+	for shape, sd := range docs {
+		for _, size := range []int{0, 1500, 4097, 40000} {
+			doc := document(sd, size, rng)
+			if shape != "empty" && size >= 1500 && len(doc) != size {
 				vhlib.Fatal("document(%s,%d) has %d bytes", shape, size, len(doc))
 			}
 			a, err := html.Parse(bytes.NewReader(doc))
@@ -945,9 +1028,36 @@ func selfTestDocuments(seed int64) {
 			if d := sameTree(a, b, nil, ""); d != "" {
 				vhlib.Fatal("document(%s,%d) is not stable under parse/render/parse: %s", shape, size, d)
 			}
-			if (firstBody(a) != nil) != (shape != "frameset") {
+			if (firstBody(a) != nil) != (sd.Skeleton != "frameset") {
 				vhlib.Fatal("document(%s): body element presence differs from the spec's HasBody", shape)
+			}
+			// every item of the spec is in the document, as an element of that name in head or body
+			for _, it := range sd.Items {
+				if sd.Skeleton == "page" && !hasElementIn(a, it.In, it.El) {
+					vhlib.Fatal("document(%s): item %s in %s is missing", shape, it.El, it.In)
+				}
 			}
 		}
 	}
+}
+
+func hasElementIn(root *html.Node, where, el string) bool {
+	var walk func(n *html.Node, in bool) bool
+	walk = func(n *html.Node, in bool) bool {
+		if n.Type == html.ElementNode {
+			if n.Data == where {
+				in = true
+			}
+			if in && n.Data == el {
+				return true
+			}
+		}
+		for c := n.FirstChild; c != nil; c = c.NextSibling {
+			if walk(c, in) {
+				return true
+			}
+		}
+		return false
+	}
+	return walk(root, false)
 }
